@@ -12,7 +12,7 @@ use truc::{
     },
     record::{
         definition::{
-            builder::native::{variant, NativeRecordDefinitionBuilder},
+            builder::native::{variant, DatumDefinitionOverride, NativeRecordDefinitionBuilder},
             DatumId, NativeDatumDetails, RecordDefinition,
         },
         type_resolver::HostTypeResolver,
@@ -27,6 +27,10 @@ pub struct TypeSpec {
     pub copy: bool,
     pub droppable: bool,
     pub zst: bool,
+    pub size: usize,
+    pub align: usize,
+    /// the same addition with overridden recorded information (engine D perturbs it)
+    pub add_override: fn(&mut Builder, &str, DatumDefinitionOverride) -> Result<DatumId, String>,
     add: fn(&mut Builder, &str) -> Result<DatumId, String>,
     add_uninit: Option<fn(&mut Builder, &str) -> Result<DatumId, String>>,
 }
@@ -38,6 +42,9 @@ macro_rules! ty {
             copy: true,
             droppable: false,
             zst: std::mem::size_of::<vtypes::$t>() == 0,
+            size: std::mem::size_of::<vtypes::$t>(),
+            align: std::mem::align_of::<vtypes::$t>(),
+            add_override: |b, n, o| b.add_datum_override::<vtypes::$t, _>(n, o),
             add: |b, n| b.add_datum::<vtypes::$t, _>(n),
             add_uninit: Some(|b, n| b.add_datum_allow_uninit::<vtypes::$t, _>(n)),
         }
@@ -48,6 +55,9 @@ macro_rules! ty {
             copy: false,
             droppable: true,
             zst: std::mem::size_of::<vtypes::$t>() == 0,
+            size: std::mem::size_of::<vtypes::$t>(),
+            align: std::mem::align_of::<vtypes::$t>(),
+            add_override: |b, n, o| b.add_datum_override::<vtypes::$t, _>(n, o),
             add: |b, n| b.add_datum::<vtypes::$t, _>(n),
             add_uninit: None,
         }
@@ -145,8 +155,28 @@ fn close(b: &mut Builder, strat: u8) {
     };
 }
 
+/// One typed addition of a history replaced by the caller's own way of adding a datum (engine D:
+/// the same type with perturbed recorded information, or a field of another crate's type).
+pub struct Subject<'a> {
+    /// index among the typed additions of the history, in the order they are made
+    pub slot: usize,
+    /// (builder, field name, type index of the history, may-be-uninit flag of the history)
+    pub add: &'a dyn Fn(&mut Builder, &str, usize, bool) -> Result<DatumId, String>,
+}
+
+impl DefSpec {
+    pub fn slots(&self) -> usize {
+        self.steps.iter().map(|s| s.add.len()).sum()
+    }
+}
+
 pub fn build(spec: &DefSpec) -> Built {
+    build_with(spec, None)
+}
+
+pub fn build_with(spec: &DefSpec, subject: Option<&Subject>) -> Built {
     let ts = types();
+    let mut slot = 0usize;
     let mut b: Builder = NativeRecordDefinitionBuilder::new(HostTypeResolver);
     let mut live: Vec<(DatumId, String)> = vec![];
     let mut types_by_id: std::collections::BTreeMap<DatumId, Option<usize>> = Default::default();
@@ -179,12 +209,13 @@ pub fn build(spec: &DefSpec) -> Built {
             } else {
                 format!("f{}", counter)
             };
-            let id = if uninit {
-                (ts[t].add_uninit.expect("may-be-uninit needs a Copy type"))(&mut b, &name)
-            } else {
-                (ts[t].add)(&mut b, &name)
+            let id = match subject {
+                Some(sub) if sub.slot == slot => (sub.add)(&mut b, &name, t, uninit),
+                _ if uninit => (ts[t].add_uninit.expect("may-be-uninit needs a Copy type"))(&mut b, &name),
+                _ => (ts[t].add)(&mut b, &name),
             }
             .expect("add");
+            slot += 1;
             types_by_id.insert(id, Some(t));
             declared.retain(|d| *d != id);
             declared.push(id);
